@@ -101,6 +101,8 @@ func c12Scenarios(thorough bool) []c12Scenario {
 		{name: "uncoercible literal over typed slices 2x2", src: "`abc` in n or n contains `1.5`", threads: 2, ops: 2, data: typed, bound: -1},
 		// one selector meeting DIFFERENT kinds in concurrent calls (anything remembered about the literal per node is contended)
 		{name: "numeric literal over mixed kinds 2x2", src: "n == 7 or `7` in m", threads: 2, ops: 2, data: kinds, bound: -1},
+		{name: "zero-fraction literal over mixed kinds 2x2", src: "n == 7.0 or `7.0` in m", threads: 2, ops: 2, data: kinds, bound: -1},
+		{name: "zero-fraction literal on integers first use 2x1", src: "n == 7.0", threads: 2, ops: 1, data: []interface{}{kinds[0]}, bound: -1},
 		{name: "numeric literal over mixed kinds 3x1", src: "n != 7 and m contains `7`", threads: 3, ops: 1, data: kinds, bound: -1},
 		// quantifier bindings next to an unknown value (an option list with spare capacity that every call extends)
 		{name: "quantifier with unknown value 2x2", src: "any l as x { x == `a` or zz == 1 }", opts: Cfg{Tag: "bexpr", Unknown: one}, threads: 2, ops: 2, data: mixed, bound: -1},
